@@ -108,6 +108,8 @@ fn new_mempool(metrics: &'static crate::Metrics, ttl: Duration, parked_max: usiz
 /// Reads the private structure under the mempool's own write lock (a quiescent point: no operation is in flight).
 async fn walk(mempool: &Mempool, accts: &[Acct]) -> serde_json::Value {
     let inner = mempool.inner.write().await;
+    // the guarded hook in the mempool records the order of its lock sections; the walk is a section of its own
+    super::verif_hook::record("walk", None);
     let name = |a: &[u8; ADDRESS_LENGTH]| accts.iter().find(|x| &x.addr == a).map(|x| x.name.clone()).unwrap_or_else(|| vlog::hex(a));
     let mut pending = serde_json::Map::new();
     for (a, acc) in inner.pending.txs() {
@@ -582,6 +584,7 @@ async fn conc_run(log: &Arc<VLog>, run: u64, rounds: u64) {
             known.entry(tx.id().to_string()).or_insert(Known { tx: tx.clone(), acct: 0, nonce: tx.nonce(), group: String::new() });
         }
         shared.stop_readers.store(false, std::sync::atomic::Ordering::SeqCst);
+        super::verif_hook::SECTIONS.lock().unwrap_or_else(std::sync::PoisonError::into_inner).clear();
         let mut handles = vec![];
         for (s, list) in per.into_iter().enumerate() {
             let (log, shared, mempool) = (log.clone(), shared.clone(), mempool.clone());
@@ -709,9 +712,17 @@ async fn conc_run(log: &Arc<VLog>, run: u64, rounds: u64) {
                 *shared.published.write().unwrap() = Arc::new(fixture.state_mut().fork());
                 jitter(&mut rng).await;
             }
-            log.ev(json!({"kind": "mc_call", "run": run, "round": round, "task": "consensus", "op": "maintenance", "height": height, "included": included}));
+            let mut shown_nonces = serde_json::Map::new();
+            for a in &accts {
+                shown_nonces.insert(a.name.clone(), json!(fixture.state().get_account_nonce(&a.addr).await.unwrap()));
+            }
+            log.ev(json!({"kind": "mc_call", "run": run, "round": round, "task": "consensus", "op": "maintenance", "height": height, "included": included,
+                "shown_nonces": shown_nonces}));
             mempool.run_maintenance(fixture.state(), false, results, height).await;
             log.ev(json!({"kind": "mc_ret", "run": run, "round": round, "task": "consensus", "op": "maintenance", "height": height}));
+            // what the pools hold right after this maintenance run, as its own lock section (judged with the section order of the hook)
+            let w = walk(&mempool, &accts).await;
+            log.ev(json!({"kind": "mc_walk", "run": run, "round": round, "height": height, "walk": w}));
             if !publish_first {
                 jitter(&mut rng).await;
                 *shared.published.write().unwrap() = Arc::new(fixture.state_mut().fork());
@@ -724,6 +735,17 @@ async fn conc_run(log: &Arc<VLog>, run: u64, rounds: u64) {
         for h in rhandles {
             h.await.expect("reader task");
         }
+        // the order in which the mempool's lock sections ran during the concurrent phase
+        let sections: Vec<serde_json::Value> = super::verif_hook::SECTIONS
+            .lock()
+            .unwrap_or_else(std::sync::PoisonError::into_inner)
+            .drain(..)
+            .map(|(k, id)| match id {
+                Some(id) => json!([k, id.to_string()]),
+                None => json!([k]),
+            })
+            .collect();
+        log.ev(json!({"kind": "mc_sections", "run": run, "round": round, "sections": sections}));
         // ---- quiescent point: final maintenance against the final chain state, then the same observation as model_walk
         *shared.published.write().unwrap() = Arc::new(fixture.state_mut().fork());
         height += 1;
